@@ -485,7 +485,9 @@ func FuzzHTTP(f *testing.F) {
 			if st, _, err := httpEnv.s.Get("/api/v1/equipment"); err != nil || st != 200 {
 				t.Fatalf("C12: liveness probe failed: %v %d", err, st)
 			}
-			if a, b := httpEnv.s.S.VerifTryLocks(); !a || !b {
+			var a, b bool
+			world.WaitActive(500*time.Millisecond, time.Millisecond, func() bool { a, b = httpEnv.s.S.VerifTryLocks(); return a && b })
+			if !a || !b {
 				t.Fatalf("C12: a server mutex is held at quiescence")
 			}
 		}
